@@ -55,6 +55,14 @@ fn walk(dir: &std::path::Path, out: &mut Vec<std::path::PathBuf>) {
     }
 }
 
+/// everything the SDK emits through `tracing` (all levels) while the cases run
+static TRACE: std::sync::Mutex<Vec<u8>> = std::sync::Mutex::new(Vec::new());
+struct TraceSink;
+impl std::io::Write for TraceSink {
+    fn write(&mut self, buf: &[u8]) -> std::io::Result<usize> { let mut t = TRACE.lock().unwrap(); if t.len() < 512 << 20 { t.extend_from_slice(buf); } Ok(buf.len()) }
+    fn flush(&mut self) -> std::io::Result<()> { Ok(()) }
+}
+
 pub async fn run_case(backend: &str, seed: u64, rep: &mut Report) -> anyhow::Result<()> {
     let mut rng = Rng::new(seed ^ 0x1EA4);
     let w = World::new(2, backend).await?;
@@ -160,6 +168,17 @@ pub async fn run_case(backend: &str, seed: u64, rep: &mut Report) -> anyhow::Res
         }
         let _ = std::fs::remove_file(&zip);
     }
+    // log output (tracing, every level) produced so far in this case
+    {
+        let trace = std::mem::take(&mut *TRACE.lock().unwrap());
+        bytes_scanned += trace.len() as u64;
+        rep.count_n(&format!("{backend}:trace-bytes-scanned"), trace.len() as u64);
+        for (m, place, form, pat) in &patterns {
+            if find(&trace, pat) {
+                rep.spec_fail(&format!("c03-plaintext-in-log-output:{}", place.replace(' ', "-")), json!({"case_seed": seed, "backend": backend, "form": form, "marker": m}), &format!("the plaintext of '{place}' appears ({form}) in the log output (tracing)"));
+            }
+        }
+    }
     let wire = w.wire.lock().unwrap().clone();
     for buf in &wire {
         bytes_scanned += buf.len() as u64;
@@ -187,6 +206,11 @@ pub fn run(cli: &Cli) {
     let mut rep = Report::new(&property, "leak", cli.seed, &cli.tier);
     let rt = tokio::runtime::Builder::new_multi_thread().worker_threads(4).enable_all().build().unwrap();
     let n: u64 = cli.extra.get("cases").and_then(|s| s.parse().ok()).unwrap_or(if cli.tier == "thorough" { 40 } else { 4 });
+    // capture the SDK's log output at every level
+    {
+        use tracing_subscriber::{fmt, EnvFilter};
+        let _ = fmt().with_env_filter(EnvFilter::new("trace")).with_ansi(false).with_writer(|| TraceSink).try_init();
+    }
     for backend in ["fs", "db"] {
         for k in 0..n {
             let case_seed = cli.seed.wrapping_mul(1_000_003).wrapping_add(k);
@@ -197,6 +221,6 @@ pub fn run(cli: &Cli) {
         }
     }
     rep.rule = format!("{n} accounts per backend: five secret kinds with a distinct 22-character marker in every text position (labels, tags, values, urls, list keys/values, custom fields, comment, recovery note), folder description, an attachment, an update and a move; two devices synced through real server storage; \\
-        every file under both client directories and the server directory (sqlite pages and WAL, vaults, event logs, blobs, snapshots) and every encoded sync request/response is searched for every marker as raw UTF-8, hex, HEX, base64 / base64url at the 3 alignments, UTF-16 LE/BE; the account password is searched too");
+        every file under both client directories and the server directory (sqlite pages and WAL, vaults, event logs, blobs, snapshots) and every encoded sync request/response is searched for every marker as raw UTF-8, hex, HEX, base64 / base64url at the 3 alignments, UTF-16 LE/BE; the account password is searched too; a backup archive (raw and per entry) and the SDK's complete log output (tracing at TRACE level) are searched as well");
     rep.write(&cli.out);
 }
